@@ -1211,6 +1211,30 @@ func (h *H) disarm(point string) {
 	gateMu.Unlock()
 }
 
+// DeleteProbed: a delete during which — between the tombstone entries of a file and their
+// commit — the files are asked for their tombstones, as a snapshot for a backup, the
+// statistics or the compaction planner do at any moment.
+func (h *H) DeleteProbed(meas, pred string, lo, hi *int64) string {
+	e := h.Engine()
+	if e == nil {
+		return "err:no_engine"
+	}
+	g := h.Arm("delete.pending")
+	dres := make(chan string, 1)
+	go func() { dres <- h.DeleteB(meas, pred, lo, hi) }()
+	select {
+	case <-g.Reached:
+		for _, f := range e.FileStore.Files() {
+			f.HasTombstones()
+		}
+		close(g.Release)
+		return <-dres
+	case res := <-dres: // no file was touched
+		h.disarm("delete.pending")
+		return res
+	}
+}
+
 // SnapHold starts a cache snapshot and holds it after its file is written, before it is
 // installed; SnapRelease lets it finish.
 func (h *H) SnapHold() string {
@@ -1421,6 +1445,7 @@ func (h *H) Step(op string) (out string) {
 		return h.Snapshot()
 	case "snapfail":
 		return h.SnapshotFails()
+
 	case "snaphold":
 		return h.SnapHold()
 	case "snaprelease":
@@ -1432,7 +1457,7 @@ func (h *H) Step(op string) (out string) {
 			return "err:" + strings.ReplaceAll(err.Error(), " ", "_")
 		}
 		return "ok"
-	case "del", "snapdel":
+	case "del", "snapdel", "delprobe":
 		var lo, hi *int64
 		if f[3] != "-inf" {
 			v := i64(f[3])
@@ -1444,6 +1469,9 @@ func (h *H) Step(op string) (out string) {
 		}
 		if f[0] == "snapdel" {
 			return h.SnapDelete(f[1], f[2], lo, hi)
+		}
+		if f[0] == "delprobe" {
+			return h.DeleteProbed(f[1], f[2], lo, hi)
 		}
 		return h.DeleteB(f[1], f[2], lo, hi)
 	case "dropm":
